@@ -43,7 +43,7 @@ def run(c, index, tier):
     spec = ch.choice("w", ROWWISE_SPECS, "spec")
     cfg = spec.draw(ch)
     if spec.name == "ConstraintKMeans":
-        pass  # balanced_predictions stays False: the documented batch-dependent exception
+        cfg["balanced_predictions"] = False  # the documented batch-dependent exception is never generated
     data = spec.data(ch, "A")
     cfg = spec.finalize(cfg, data)
     g = ch.subseed("r", "global-seed")
@@ -110,6 +110,7 @@ def run(c, index, tier):
             kinds.append("n_jobs")
         if unseen_idx.size:
             kinds.append("unseen-only")
+        kinds.append("buffer-reuse")
         op = ch.choice("w", kinds, "op")
         if len(c.scenario["ops"]) < 20:
             c.scenario["ops"].append(op)
@@ -146,6 +147,35 @@ def run(c, index, tier):
             continue
         if op == "n_jobs":
             est.set_params(n_jobs=ch.choice("w", [2, 3, None], "n_jobs-val"))
+            continue
+        if op == "buffer-reuse":
+            # the caller reuses one array object for successive batches: same
+            # object, new content (a scoring buffer, a permutation loop)
+            size = ch.integer("w", 1, m_rows, "buf-size")
+            buf = numpy.empty((size,) + Xb.shape[1:], dtype=Xb.dtype)
+            m = ch.choice("w", sorted(ref), "method")
+            rt, at = tol.get(m, R.TOL)
+            if Xb.dtype == numpy.float32 and (rt, at) != R.EXACT:
+                rt, at = max(rt, 1e-4), max(at, 1e-5)
+            for rnd in range(2):
+                idx = rs.randint(0, m_rows, size)
+                buf[...] = Xb[idx]
+                env()
+                ok, out = _call(c, est, m, buf)
+                if not ok:
+                    break
+                solid = ~fragile[idx]
+                if out.shape[0] != size or not U.arrays_equal(out[solid], ref[m][idx][solid], rt, at):
+                    _viol(
+                        c,
+                        seen,
+                        spec,
+                        "row-purity",
+                        (m, "buffer-reuse"),
+                        "%s called on an array object that was used for an earlier batch and refilled in place does not return the outputs of its current rows (round %d, rows %r, restart=%s)" % (m, rnd + 1, idx.tolist()[:10], restarted),
+                    )
+                    break
+            c.probe("buffer_reused")
             continue
         if op == "sub":
             size = ch.integer("w", 1, m_rows, "sub-size")
